@@ -267,3 +267,81 @@ func DeadlockSubsetAndSingles() {
 func DeadlockFourRequests() {
 	completes(1, true, concreteAtt([]int{0, 1}, 10), concreteAtt([]int{1, 0}, 20), concreteAtt([]int{2}, 30), concreteAtt([]int{2, 1}, 40))
 }
+
+// CancelledWaiter: three conflicting single requests on one key; the client of the second goes away
+// (its context is cancelled before the request reaches the runner).  The abandoned request may be
+// answered FAILED without effect or be processed normally; the other two must still be serialised.
+func CancelledWaiter() {
+	cancelled(1, attReq("a", []int{0}), attReq("b", []int{0}), attReq("c", []int{0}))
+}
+
+func cancelled(pb int, reqs ...*req) {
+	vsym.ForbidCrash()
+	ctx := context.Background()
+	pre := symbolicPre(1, false)
+	w := newWorld(ctx, "conc", pre)
+	bctx, cancel := context.WithCancel(ctx)
+	cancel() // the client of the second request has already gone away when it is queued
+	got := make([][]rules.Result, len(reqs))
+	vsym.Explore(pb)
+	for k := range reqs {
+		k := k
+		c := ctx
+		if k == 1 {
+			c = bctx
+		}
+		vsym.Spawn(func() { got[k] = w.ruler.RunRules(c, hc.Creds(), reqs[k].action, reqs[k].data()) })
+	}
+	vsym.Join()
+	vsym.Sequential()
+	vsym.Reach("all-requests-completed")
+	for k := range got {
+		vsym.Assert("L0-one-verdict-per-entry", len(got[k]) == len(reqs[k].keys))
+	}
+	abandoned := true
+	for _, r := range got[1] {
+		abandoned = abandoned && r == rules.FAILED
+	}
+	linearizable := false
+	for oi, ord := range permutations(len(reqs)) {
+		for drop := 0; drop < 2; drop++ {
+			if drop == 1 && !abandoned {
+				continue
+			}
+			sw := newWorld(ctx, fmt.Sprintf("seq%d_%d", oi, drop), pre)
+			seq := make([][]rules.Result, len(reqs))
+			for _, k := range ord {
+				if drop == 1 && k == 1 {
+					seq[k] = got[k]
+					continue
+				}
+				seq[k] = sw.ruler.RunRules(ctx, hc.Creds(), reqs[k].action, reqs[k].data())
+			}
+			same := true
+			for k := range reqs {
+				same = same && verdictsEqual(got[k], seq[k])
+			}
+			if same {
+				linearizable = vsym.Or(linearizable, sameState(ctx, w, sw, 1))
+			}
+		}
+	}
+	vsym.Assert("L1-outcome-equals-some-sequential-order", linearizable)
+}
+
+func concreteSingle(s, t uint64) *req {
+	return &req{keys: []int{0}, action: ruler.ActionSignBeaconAttestation, s: []uint64{s}, t: []uint64{t}}
+}
+
+// CancelledWaiterConcrete: concrete conflicting attestations (1->5, 3->5 abandoned, 2->5), bound 2.
+func CancelledWaiterConcrete() {
+	cancelled(2, concreteSingle(1, 5), concreteSingle(3, 5), concreteSingle(2, 5))
+}
+
+// CancelledWaiterFirstSymbolic: an arbitrary first request against the concrete other two.
+func CancelledWaiterFirstSymbolic() {
+	cancelled(1, attReq("a", []int{0}), concreteSingle(3, 5), concreteSingle(2, 5))
+}
+func CancelledWaiterFirstSymbolicPb2() {
+	cancelled(2, attReq("a", []int{0}), concreteSingle(3, 5), concreteSingle(2, 5))
+}
